@@ -25,6 +25,19 @@ use std::collections::{BTreeMap, BTreeSet};
 use std::net::{IpAddr, Ipv4Addr};
 use std::sync::Arc;
 
+// In the big sweeps of part (a) descriptions ("what") are not formatted per
+// violation: only the signature and the case are kept, and the text is produced
+// once per signature by re-running the kept witness.
+thread_local! {
+    static TERSE: std::cell::Cell<bool> = const { std::cell::Cell::new(false) };
+}
+fn terse() -> bool {
+    TERSE.with(|t| t.get())
+}
+macro_rules! w {
+    ($($a:tt)*) => { if terse() { String::new() } else { format!($($a)*) } };
+}
+
 // ---------------------------------------------------------------------------
 // Reference model
 // ---------------------------------------------------------------------------
@@ -395,25 +408,25 @@ fn judge_ranking(paths: &[PInfo], rk: &Ranking, evpn: bool, reading: u8, whence:
     let mut seen = BTreeSet::new();
     for &i in &rk.ranked {
         if i == UNKNOWN {
-            out.push(("C02/eligibility/unknown-path-listed".into(), format!("{whence}: the ranked list {} contains a path that is not in the RIB", labs(paths, &rk.ranked))));
+            out.push(("C02/eligibility/unknown-path-listed".into(), w!("{whence}: the ranked list {} contains a path that is not in the RIB", labs(paths, &rk.ranked))));
             broken = true;
             continue;
         }
         if !seen.insert(i) {
-            out.push(("C02/eligibility/duplicate-entry".into(), format!("{whence}: the ranked list {} lists {} twice", labs(paths, &rk.ranked), lab(paths, i))));
+            out.push(("C02/eligibility/duplicate-entry".into(), w!("{whence}: the ranked list {} lists {} twice", labs(paths, &rk.ranked), lab(paths, i))));
             broken = true;
         }
         if paths[i].filtered {
-            out.push(("C02/eligibility/filtered-listed/ranking".into(), format!("{whence}: path {} was rejected by import policy but is in the ranked list {}", lab(paths, i), labs(paths, &rk.ranked))));
+            out.push(("C02/eligibility/filtered-listed/ranking".into(), w!("{whence}: path {} was rejected by import policy but is in the ranked list {}", lab(paths, i), labs(paths, &rk.ranked))));
             broken = true;
         } else if paths[i].nh_invalid {
-            out.push(("C02/eligibility/nexthop-invalid-listed/ranking".into(), format!("{whence}: path {} has an unreachable next hop but is in the ranked list {}", lab(paths, i), labs(paths, &rk.ranked))));
+            out.push(("C02/eligibility/nexthop-invalid-listed/ranking".into(), w!("{whence}: path {} has an unreachable next hop but is in the ranked list {}", lab(paths, i), labs(paths, &rk.ranked))));
             broken = true;
         }
     }
     for &e in &elig {
         if !seen.contains(&e) {
-            out.push(("C02/eligibility/eligible-missing".into(), format!("{whence}: eligible path {} is missing from the ranked list {}", lab(paths, e), labs(paths, &rk.ranked))));
+            out.push(("C02/eligibility/eligible-missing".into(), w!("{whence}: eligible path {} is missing from the ranked list {}", lab(paths, e), labs(paths, &rk.ranked))));
             broken = true;
         }
     }
@@ -425,7 +438,7 @@ fn judge_ranking(paths: &[PInfo], rk: &Ranking, evpn: bool, reading: u8, whence:
         if o == Ordering::Greater {
             out.push((
                 format!("C02/order/{}", order_shape(x, y, d, evpn, reading)),
-                format!(
+                w!(
                     "{whence}: ranked list {} places {} before {} although the latter is preferred at step '{}' of the stated order",
                     labs(paths, &rk.ranked),
                     lab(paths, w[0]),
@@ -441,16 +454,16 @@ fn judge_ranking(paths: &[PInfo], rk: &Ranking, evpn: bool, reading: u8, whence:
     match rk.best {
         None => {
             if !elig.is_empty() && !broken {
-                out.push(("C02/best/none-selected".into(), format!("{whence}: no best path although {} are eligible", labs(paths, &elig))));
+                out.push(("C02/best/none-selected".into(), w!("{whence}: no best path although {} are eligible", labs(paths, &elig))));
             }
         }
         Some(b) => {
             if !broken {
                 if b == UNKNOWN || !paths[b].eligible() {
-                    out.push(("C02/best/ineligible-selected".into(), format!("{whence}: best path {} is not eligible", lab(paths, b))));
+                    out.push(("C02/best/ineligible-selected".into(), w!("{whence}: best path {} is not eligible", lab(paths, b))));
                 } else if let Some(&e) = elig.iter().find(|&&e| ref_cmp(&paths[e].r, &paths[b].r, evpn, reading).0 == Ordering::Less) {
                     let d = ref_cmp(&paths[e].r, &paths[b].r, evpn, reading).1;
-                    out.push((format!("C02/best/not-maximal/{}", STEPS[d]), format!("{whence}: best path is {} but {} beats it at step '{}'", lab(paths, b), lab(paths, e), STEPS[d])));
+                    out.push((format!("C02/best/not-maximal/{}", STEPS[d]), w!("{whence}: best path is {} but {} beats it at step '{}'", lab(paths, b), lab(paths, e), STEPS[d])));
                 }
             }
         }
@@ -461,7 +474,7 @@ fn judge_ranking(paths: &[PInfo], rk: &Ranking, evpn: bool, reading: u8, whence:
     if !broken {
         let is_prefix = rk.ecmp.len() <= rk.ranked.len() && rk.ecmp.iter().zip(rk.ranked.iter()).all(|(a, b)| a == b);
         if !is_prefix {
-            out.push(("C02/ecmp/not-a-prefix".into(), format!("{whence}: ecmp_paths {} is not a prefix of the ranked list {}", labs(paths, &rk.ecmp), labs(paths, &rk.ranked))));
+            out.push(("C02/ecmp/not-a-prefix".into(), w!("{whence}: ecmp_paths {} is not a prefix of the ranked list {}", labs(paths, &rk.ecmp), labs(paths, &rk.ranked))));
         } else if !evpn && !rk.ranked.is_empty() {
             let b = &paths[rk.ranked[0]].r;
             let want = rk.ranked.iter().take_while(|&&i| tied_before_rid(b, &paths[i].r, evpn, reading).is_none()).count();
@@ -471,12 +484,12 @@ fn judge_ranking(paths: &[PInfo], rk: &Ranking, evpn: bool, reading: u8, whence:
                 let shape = if s == STEP_ASPATH && b.aslen.max(paths[m].r.aslen) > 255 { "as-path-length-over-255".to_string() } else { format!("includes-path-differing-at-{}", STEPS[s]) };
                 out.push((
                     format!("C02/ecmp/{shape}"),
-                    format!("{whence}: ecmp_paths {} includes {} which differs from the best path at step '{}' (before the router-id step)", labs(paths, &rk.ecmp), lab(paths, m), STEPS[s]),
+                    w!("{whence}: ecmp_paths {} includes {} which differs from the best path at step '{}' (before the router-id step)", labs(paths, &rk.ecmp), lab(paths, m), STEPS[s]),
                 ));
             } else if rk.ecmp.len() < want {
                 out.push((
                     "C02/ecmp/excludes-tied-path".into(),
-                    format!("{whence}: ecmp_paths {} stops before {} which ties with the best path on every step before router-id", labs(paths, &rk.ecmp), lab(paths, rk.ranked[rk.ecmp.len()])),
+                    w!("{whence}: ecmp_paths {} stops before {} which ties with the best path on every step before router-id", labs(paths, &rk.ecmp), lab(paths, rk.ranked[rk.ecmp.len()])),
                 ));
             }
         }
@@ -493,7 +506,7 @@ fn judge(paths: &[PInfo], obs: &Obs, evpn: bool, reading: u8) -> Vec<(String, St
         out.push(("C02/eligibility/unknown-path-listed".into(), "destinations(Global) lists a path that is not in the RIB".into()));
     }
     if let Some(&f) = g_known.iter().find(|&&i| paths[i].filtered) {
-        out.push(("C02/eligibility/filtered-listed/global-view".into(), format!("destinations(Global, enable_filtered=false) lists the policy-rejected path {}", lab(paths, f))));
+        out.push(("C02/eligibility/filtered-listed/global-view".into(), w!("destinations(Global, enable_filtered=false) lists the policy-rejected path {}", lab(paths, f))));
     }
     // the head of the list is what API clients read as the best path: when a best path was
     // selected it must be the head.  (With no eligible path at all the listing of excluded
@@ -502,7 +515,7 @@ fn judge(paths: &[PInfo], obs: &Obs, evpn: bool, reading: u8) -> Vec<(String, St
         if h != b && paths[h].nh_invalid && !paths[h].filtered {
             out.push((
                 "C02/eligibility/nexthop-invalid-listed/global-view".into(),
-                format!(
+                w!(
                     "destinations(Global) lists {} first (the position API clients read as best) although its next hop is unreachable; the selected best {} comes after it",
                     lab(paths, h),
                     lab(paths, b)
@@ -512,19 +525,19 @@ fn judge(paths: &[PInfo], obs: &Obs, evpn: bool, reading: u8) -> Vec<(String, St
     }
     let g_elig: Vec<usize> = g_known.iter().copied().filter(|&i| paths[i].eligible()).collect();
     if !broken && g_elig != obs.rk.ranked {
-        out.push(("C02/global-view/differs-from-ranking".into(), format!("destinations(Global) orders the eligible paths {} but the ranked list is {}", labs(paths, &g_elig), labs(paths, &obs.rk.ranked))));
+        out.push(("C02/global-view/differs-from-ranking".into(), w!("destinations(Global) orders the eligible paths {} but the ranked list is {}", labs(paths, &g_elig), labs(paths, &obs.rk.ranked))));
     }
     // RS-local view: a reference-maximal path among the other RS clients' unfiltered paths
     for (viewer, shown) in &obs.rs {
         let cands: Vec<usize> = (0..paths.len()).filter(|&i| paths[i].rs_client && paths[i].addr != *viewer && !paths[i].filtered).collect();
         if cands.is_empty() {
             if !shown.is_empty() {
-                out.push(("C02/rs-local/shown-without-candidate".into(), format!("RsLocal({viewer}) shows {} but no other RS client has an unfiltered path", labs(paths, shown))));
+                out.push(("C02/rs-local/shown-without-candidate".into(), w!("RsLocal({viewer}) shows {} but no other RS client has an unfiltered path", labs(paths, shown))));
             }
             continue;
         }
         if shown.len() != 1 || shown[0] == UNKNOWN || !cands.contains(&shown[0]) {
-            out.push(("C02/rs-local/wrong-candidate-set".into(), format!("RsLocal({viewer}) shows {} but the candidates are {}", labs(paths, shown), labs(paths, &cands))));
+            out.push(("C02/rs-local/wrong-candidate-set".into(), w!("RsLocal({viewer}) shows {} but the candidates are {}", labs(paths, shown), labs(paths, &cands))));
             continue;
         }
         let s = shown[0];
@@ -544,7 +557,7 @@ fn judge(paths: &[PInfo], obs: &Obs, evpn: bool, reading: u8) -> Vec<(String, St
         let d = ref_cmp(&paths[better].r, &paths[s].r, evpn, reading).1;
         out.push((
             format!("C02/rs-local/not-maximal/{}", if follows { "follows-table-order" } else { "against-table-order" }),
-            format!("RsLocal({viewer}) shows {} but RS client path {} beats it at step '{}' (candidates in table order: {})", lab(paths, s), lab(paths, better), STEPS[d], labs(paths, &all_order)),
+            w!("RsLocal({viewer}) shows {} but RS client path {} beats it at step '{}' (candidates in table order: {})", lab(paths, s), lab(paths, better), STEPS[d], labs(paths, &all_order)),
         ));
     }
     out
@@ -670,8 +683,11 @@ fn product(dom: &[Vec<u8>; KDIMS]) -> Vec<Kind> {
         .collect()
 }
 
+/// (signature, description — empty in terse mode —, arrival order or None for a set-level clause)
+type SetViol = (String, String, Option<Vec<usize>>);
+
 struct SetOutcome {
-    viols: Vec<Violation>,
+    viols: Vec<SetViol>,
     tables: u64,
     nontrivial: bool,
     /// deciding step between the two best eligible paths (for non-vacuity counters)
@@ -709,7 +725,7 @@ fn slot_objects(kinds: &[Kind]) -> (Vec<Arc<Source>>, Vec<Arc<Vec<Attribute>>>, 
         let ak = k.attrk(slot);
         let a = Arc::new(build_attrs(&ak));
         infos.push(PInfo {
-            label: k.describe(slot),
+            label: if terse() { String::new() } else { k.describe(slot) },
             r: ref_of(&ak, role, k.router_id(slot), k.gr == 1, k.llgr == 1),
             filtered: k.elig == 1,
             nh_invalid: k.elig == 2,
@@ -725,12 +741,11 @@ fn slot_objects(kinds: &[Kind]) -> (Vec<Arc<Source>>, Vec<Arc<Vec<Attribute>>>, 
 }
 
 /// One set of kinds, all arrival orders.
-fn run_set(tag: &str, evpn: bool, kinds: &[Kind], perms: &[Vec<usize>], verbose: bool) -> SetOutcome {
+fn run_set(_tag: &str, evpn: bool, kinds: &[Kind], perms: &[Vec<usize>], verbose: bool) -> SetOutcome {
     let (fam, net) = the_net(evpn);
-    let mut viols: Vec<Violation> = Vec::new();
+    let mut viols: Vec<SetViol> = Vec::new();
     let mut tables = 0u64;
     let mut finals: Vec<(Vec<usize>, Ranking)> = Vec::new();
-    let mut any_order_broken = false;
     let (srcs, attrs, infos) = slot_objects(kinds);
     let mut viewers: Vec<IpAddr> = infos.iter().map(|p| p.addr).collect();
     viewers.push(IpAddr::V4(Ipv4Addr::new(10, 0, 0, 200)));
@@ -791,13 +806,10 @@ fn run_set(tag: &str, evpn: bool, kinds: &[Kind], perms: &[Vec<usize>], verbose:
         });
         match r {
             Ok((out, last)) => {
-                if out.iter().any(|(s, _)| s.starts_with("C02/order") || s.starts_with("C02/eligibility")) {
-                    any_order_broken = true;
-                }
                 let mut seen = BTreeSet::new();
                 for (sig, what) in out {
                     if seen.insert(sig.clone()) {
-                        viols.push(Violation { sig, what, case: case_str(tag, evpn, kinds, Some(order)) });
+                        viols.push((sig, what, Some(order.clone())));
                     }
                 }
                 if let Some(l) = last {
@@ -805,16 +817,17 @@ fn run_set(tag: &str, evpn: bool, kinds: &[Kind], perms: &[Vec<usize>], verbose:
                 }
             }
             Err(msg) => {
-                any_order_broken = true;
-                viols.push(Violation {
-                    sig: classify_panic(&msg),
-                    what: format!(
+                viols.push((
+                    classify_panic(&msg),
+                    w!(
                         "the table panicked while selecting among {} (arrival order {:?}): {msg}; best-path selection must work for every AS_PATH that fits a message",
                         infos.iter().map(|p| p.label.clone()).collect::<Vec<_>>().join(" | "),
                         order
                     ),
-                    case: case_str(tag, evpn, kinds, Some(order)),
-                });
+                    Some(order.clone()),
+                ));
+                // the set cannot be judged in this build profile: the other arrival orders are not tried
+                break;
             }
         }
     }
@@ -840,20 +853,19 @@ fn run_set(tag: &str, evpn: bool, kinds: &[Kind], perms: &[Vec<usize>], verbose:
                 }
             }
             let sig = format!("C02/arrival-order-dependent/{shape}");
-            // if every order was already flagged for a wrong ranking the root cause is reported there;
-            // the dependence is still a distinct clause of the statement, so it is reported too
-            let _ = any_order_broken;
-            viols.push(Violation {
+            // a distinct clause of the statement ("not on the order in which they arrived"): reported
+            // even when the individual rankings were already flagged
+            viols.push((
                 sig,
-                what: format!(
+                w!(
                     "the same set of paths ranks as {} when arriving in order {:?} but as {} in order {:?}",
                     labs(&infos, &first.1.ranked),
                     first.0,
                     labs(&infos, &other.1.ranked),
                     other.0
                 ),
-                case: case_str(tag, evpn, kinds, None),
-            });
+                None,
+            ));
         }
     }
     let elig: Vec<usize> = (0..infos.len()).filter(|&i| infos[i].eligible()).collect();
@@ -872,38 +884,139 @@ fn run_set(tag: &str, evpn: bool, kinds: &[Kind], perms: &[Vec<usize>], verbose:
     SetOutcome { viols, tables, nontrivial, decided, outcome }
 }
 
-fn account(local: &mut Report, tag: &str, o: SetOutcome, sample: impl FnOnce() -> String, idx: u64) {
-    local.evaluations += o.tables;
+/// Witness of a signature found in part (a); the smallest one (this order) is kept, so the
+/// kept witness does not depend on the thread schedule.
+#[derive(Clone, PartialEq, Eq, PartialOrd, Ord)]
+struct Wit {
+    /// involves an AS_PATH over 255 hops (witnesses without one are preferred: they isolate one cause)
+    long: bool,
+    n: usize,
+    evpn: bool,
+    kinds: Vec<Kind>,
+    order: Option<Vec<usize>>,
+    tag: String,
+}
+
+struct Local {
+    rep: Report,
+    sigs: BTreeMap<String, (u64, Wit)>,
+}
+
+fn note_sig(sigs: &mut BTreeMap<String, (u64, Wit)>, sig: String, n: u64, wit: impl FnOnce() -> Wit, better: impl Fn(&Wit) -> bool) {
+    match sigs.get_mut(&sig) {
+        Some((c, old)) => {
+            *c += n;
+            if better(old) {
+                *old = wit();
+            }
+        }
+        None => {
+            sigs.insert(sig, (n, wit()));
+        }
+    }
+}
+
+fn account(local: &mut Local, tag: &str, evpn: bool, kinds: &[Kind], o: SetOutcome, idx: u64) {
+    let rep = &mut local.rep;
+    rep.evaluations += o.tables;
     if o.nontrivial {
-        local.distinct_nontrivial += 1;
+        rep.distinct_nontrivial += 1;
     }
-    local.add(&format!("a.{tag}.sets"), 1);
+    rep.add(&format!("a.{tag}.sets"), 1);
     if let Some(d) = o.decided {
-        local.add(&format!("a.decided-at.{}", if d >= 9 { "complete-tie" } else { STEPS[d] }), 1);
+        rep.add(&format!("a.decided-at.{}", if d >= 9 { "complete-tie" } else { STEPS[d] }), 1);
     }
-    local.add(&format!("a.outcome.{}", o.outcome), 1);
+    rep.add(&format!("a.outcome.{}", o.outcome), 1);
     if !o.viols.is_empty() {
-        local.add(&format!("a.{tag}.sets-with-violation"), 1);
+        rep.add(&format!("a.{tag}.sets-with-violation"), 1);
     }
-    local.violations_from(o.viols);
-    if idx % 50_021 == 17 && local.samples.is_empty() {
-        local.samples.push(sample());
+    for (sig, _, order) in o.viols {
+        let long = kinds.iter().any(|k| ref_as_len(&asp_spec(k.asp)) > 255);
+        let mk = || Wit { long, n: kinds.len(), evpn, kinds: kinds.to_vec(), order: order.clone(), tag: tag.to_string() };
+        note_sig(&mut local.sigs, sig, 1, mk, |old| (long, kinds.len(), evpn, kinds, &order, tag) < (old.long, old.n, old.evpn, &old.kinds[..], &old.order, old.tag.as_str()));
+    }
+    // sampled by index only (never by what a worker happened to see first)
+    if idx % 400_009 == 17 + rep.seed() % 1000 {
+        rep.samples.push(format!("{} = {}", case_str(tag, evpn, kinds, None), kinds.iter().enumerate().map(|(i, k)| k.describe(i)).collect::<Vec<_>>().join(" vs ")));
+    }
+}
+
+/// Wall-clock budget of part (a) (a guard for an overloaded machine; hitting it is reported as a cap).
+static DEADLINE: std::sync::Mutex<Option<std::time::Instant>> = std::sync::Mutex::new(None);
+
+/// Evaluate `f(i, local)` for every i in 0..n on all workers; counters are summed, per signature
+/// the smallest witness is kept.
+fn par_sets<F: Fn(u64, &mut Local) + Sync>(n: u64, rep: &mut Report, sigs: &mut BTreeMap<String, (u64, Wit)>, f: F) {
+    let workers = bfs::workers();
+    let deadline = *DEADLINE.lock().unwrap();
+    let capped = std::sync::atomic::AtomicBool::new(false);
+    let next = std::sync::atomic::AtomicU64::new(0);
+    let block: u64 = (n / (workers as u64 * 64)).clamp(1, 4096);
+    let done: std::sync::Mutex<Vec<Local>> = std::sync::Mutex::new(Vec::new());
+    let (prop, part) = (rep.property.clone(), rep.part.clone());
+    std::thread::scope(|s| {
+        for _ in 0..workers {
+            std::thread::Builder::new()
+                .stack_size(32 << 20)
+                .spawn_scoped(s, || {
+                    TERSE.with(|t| t.set(true));
+                    let mut local = Local { rep: Report::new(&prop, &part), sigs: BTreeMap::new() };
+                    loop {
+                        let start = next.fetch_add(block, std::sync::atomic::Ordering::Relaxed);
+                        if start >= n {
+                            break;
+                        }
+                        if deadline.is_some_and(|d| std::time::Instant::now() > d) {
+                            capped.store(true, std::sync::atomic::Ordering::Relaxed);
+                            break;
+                        }
+                        for i in start..(start + block).min(n) {
+                            f(i, &mut local);
+                        }
+                    }
+                    done.lock().unwrap().push(local);
+                })
+                .expect("spawn");
+        }
+    });
+    if capped.load(std::sync::atomic::Ordering::Relaxed) {
+        rep.exhaustive = false;
+        rep.caps_hit.push(format!("part (a): wall-clock budget exhausted inside a sweep of {n} sets; the sweep was not completed"));
+    }
+    let mut locals = done.into_inner().unwrap();
+    // merge order must not matter: counters are sums, witnesses are minima, samples are sorted
+    let mut samples: Vec<String> = Vec::new();
+    for l in locals.iter_mut() {
+        samples.append(&mut l.rep.samples);
+    }
+    samples.sort();
+    for l in locals {
+        for (sig, (c, w)) in l.sigs {
+            let w2 = w.clone();
+            note_sig(sigs, sig, c, move || w, |old| w2 < *old);
+        }
+        rep.merge(l.rep);
+    }
+    for sm in samples.into_iter().take(3) {
+        if rep.samples.len() < 12 {
+            rep.samples.push(sm);
+        }
     }
 }
 
 /// All ordered pairs over `kinds`.
-fn sweep_pairs(tag: &str, evpn: bool, kinds: &[Kind], rep: &mut Report) {
+fn sweep_pairs(tag: &str, evpn: bool, kinds: &[Kind], rep: &mut Report, sigs: &mut BTreeMap<String, (u64, Wit)>) {
     let k = kinds.len() as u64;
     let perms = enumr::permutations(2);
     let t0 = std::time::Instant::now();
     let before = rep.evaluations;
-    enumr::par_range(k * k, rep, |i, local| {
+    par_sets(k * k, rep, sigs, |i, local| {
         let set = [kinds[(i / k) as usize], kinds[(i % k) as usize]];
         let o = run_set(tag, evpn, &set, &perms, false);
-        account(local, tag, o, || format!("pair {} = {} vs {}", case_str(tag, evpn, &set, None), set[0].describe(0), set[1].describe(1)), i);
+        account(local, tag, evpn, &set, o, i);
     });
     rep.notes.push(format!(
-        "(a) {tag}: {} kinds, {} ordered pairs x 2 arrival orders = {} tables, wall {:.1}s",
+        "(a) {tag}: {} kinds, {} ordered pairs, both arrival orders each: {} tables built and judged, wall {:.1}s",
         k,
         k * k,
         rep.evaluations - before,
@@ -912,18 +1025,18 @@ fn sweep_pairs(tag: &str, evpn: bool, kinds: &[Kind], rep: &mut Report) {
 }
 
 /// All ordered triples over `kinds`.
-fn sweep_triples(tag: &str, evpn: bool, kinds: &[Kind], rep: &mut Report) {
+fn sweep_triples(tag: &str, evpn: bool, kinds: &[Kind], rep: &mut Report, sigs: &mut BTreeMap<String, (u64, Wit)>) {
     let k = kinds.len() as u64;
     let perms = enumr::permutations(3);
     let t0 = std::time::Instant::now();
     let before = rep.evaluations;
-    enumr::par_range(k * k * k, rep, |i, local| {
+    par_sets(k * k * k, rep, sigs, |i, local| {
         let set = [kinds[(i / (k * k)) as usize], kinds[((i / k) % k) as usize], kinds[(i % k) as usize]];
         let o = run_set(tag, evpn, &set, &perms, false);
-        account(local, tag, o, || format!("triple {}", case_str(tag, evpn, &set, None)), i);
+        account(local, tag, evpn, &set, o, i);
     });
     rep.notes.push(format!(
-        "(a) {tag}: {} cover kinds, {} ordered triples x 6 arrival orders = {} tables, wall {:.1}s",
+        "(a) {tag}: {} cover kinds, {} ordered triples, all 6 arrival orders each: {} tables built and judged, wall {:.1}s",
         k,
         k * k * k,
         rep.evaluations - before,
@@ -1003,20 +1116,38 @@ fn axis_kinds(d: usize) -> Vec<Kind> {
 
 fn part_a(rep: &mut Report) {
     let thorough = rep.thorough();
-    // IPv4 pairs
+    *DEADLINE.lock().unwrap() = Some(std::time::Instant::now() + std::time::Duration::from_secs(if thorough { 1500 } else { 40 }));
+    let mut sigs: BTreeMap<String, (u64, Wit)> = BTreeMap::new();
     let kinds = product(&reduced_v4());
-    sweep_pairs("pairs-v4", false, &kinds, rep);
+    sweep_pairs("pairs-v4", false, &kinds, rep, &mut sigs);
     let ek = product(&reduced_evpn());
-    sweep_pairs("pairs-evpn", true, &ek, rep);
-    sweep_triples("triples-v4", false, &cover(false, thorough), rep);
-    sweep_triples("triples-evpn", true, &cover(true, false), rep);
+    sweep_pairs("pairs-evpn", true, &ek, rep, &mut sigs);
+    sweep_triples("triples-v4", false, &cover(false, thorough), rep, &mut sigs);
+    sweep_triples("triples-evpn", true, &cover(true, false), rep, &mut sigs);
     if thorough {
         for d in 1..KDIMS {
             let ks = axis_kinds(d);
-            sweep_pairs(&format!("axis{}-v4", d), false, &ks, rep);
+            sweep_pairs(&format!("axis{}-v4", d), false, &ks, rep, &mut sigs);
         }
         let k3 = product(&three_v4());
-        sweep_pairs("pairs3-v4", false, &k3, rep);
+        sweep_pairs("pairs3-v4", false, &k3, rep, &mut sigs);
+    }
+    // one description per signature: re-run the kept witness with full texts
+    for (sig, (count, w)) in sigs {
+        let perms: Vec<Vec<usize>> = match &w.order {
+            Some(o) => vec![o.clone()],
+            None => enumr::permutations(w.n),
+        };
+        let o = run_set(&w.tag, w.evpn, &w.kinds, &perms, false);
+        let case = case_str(&w.tag, w.evpn, &w.kinds, w.order.as_deref());
+        match o.viols.into_iter().find(|v| v.0 == sig) {
+            Some((_, what, _)) => {
+                rep.violations.insert(sig.clone(), (Violation { sig, what, case }, count));
+            }
+            None => {
+                rep.machinery_error = Some(format!("witness {case} of {sig} did not reproduce"));
+            }
+        }
     }
 }
 
@@ -1046,13 +1177,13 @@ fn replay_a(case: &str, rep: &mut Report) {
         let o = run_set(f[1], evpn, &kinds, std::slice::from_ref(p), true);
         rep.evaluations += o.tables;
         for v in &o.viols {
-            eprintln!("    VIOLATION {} :: {}", v.sig, v.what);
+            eprintln!("    VIOLATION {} :: {}", v.0, v.1);
         }
-        rep.violations_from(o.viols);
+        rep.violations_from(o.viols.into_iter().map(|(sig, what, _)| Violation { sig, what, case: case.to_string() }).collect());
     }
     if perms.len() > 1 {
         let o = run_set(f[1], evpn, &kinds, &perms, false);
-        rep.violations_from(o.viols.into_iter().filter(|v| v.sig.starts_with("C02/arrival-order")).collect());
+        rep.violations_from(o.viols.into_iter().filter(|v| v.0.starts_with("C02/arrival-order")).map(|(sig, what, _)| Violation { sig, what, case: case.to_string() }).collect());
     }
 }
 
@@ -1613,7 +1744,7 @@ pub fn run(replay: Option<&str>) -> Report {
     );
     part_a(&mut rep);
     for m in &models {
-        let cfg = BfsCfg { max_depth: depth, max_secs: if thorough { 900 } else { 30 }, ..Default::default() };
+        let cfg = BfsCfg { max_depth: depth, max_secs: if thorough { 900 } else { 15 }, ..Default::default() };
         bfs::bfs(m, &cfg, &mut rep);
     }
     rep.notes.push("assume: flags of part (a) are set on the Source before the insert (the state a fresh table would be given); flag flips on paths already listed are part (b)".into());
